@@ -103,16 +103,24 @@ Theorem C03_str_input_any_fuel : forall (E: senv) (P: prims) (n: nat) (t: sty) (
 Proof. intros E P n t s. exact (uk_str_ref E P n t true s). Qed.
 Print Assumptions C03_str_input_any_fuel.
 
-(* ... and the fuel [List.length E] is enough when the NamedTuple classes are ranked: [rk] bounds, for every
-   NamedTuple class, the number of NamedTuple classes a str can still descend through from its fields
-   ([need]: through list / set / tuple / Optional / NamedTuple positions; dataclasses, dicts and TypedDicts
-   stop the descent).  Then no RecursionError comes out. *)
-Theorem C03_str_fuel_sufficient : forall (E: senv) (P: prims) (rk: String.string -> nat),
-  (forall c k, sfind E KNamed c = Some k -> forall f, In f k.(sc_fields) -> (need rk f.(sf_ty) <= rk c)%nat) ->
-  forall (t: sty) (s: String.string), (need rk t <= List.length E)%nat ->
+(* ... and the fuel [List.length E] is enough on every class table whose NamedTuple reference graph is
+   acyclic.  [acyclic E] is a computable check: the depth-bounded ranks of all classes (longest chain of
+   NamedTuple classes a str can descend through: list / set / tuple / Optional / NamedTuple positions;
+   dataclasses, dicts and TypedDicts stop the descent) computed with depth |E| stay below |E| and do not
+   change at depth |E| + 1.  Then no RecursionError comes out, for any type and any str. *)
+Theorem C03_str_fuel_sufficient : forall (E: senv) (P: prims),
+  acyclic E = true ->
+  forall (t: sty) (s: String.string), uk_str E P (List.length E) (cu true t) s <> Exn XRecursion.
+Proof. intros E P HA t s. exact (uk_str_no_recursion_acyclic E P HA t true s). Qed.
+Print Assumptions C03_str_fuel_sufficient.
+
+(* the same with an explicit rank function instead of the computed one *)
+Theorem C03_str_fuel_sufficient_ranked : forall (E: senv) (P: prims) (rk: String.string -> nat),
+  (forall c k, sfind E KNamed c = Some k -> forall f, In f k.(sc_fields) -> (need E rk f.(sf_ty) <= rk c)%nat) ->
+  forall (t: sty) (s: String.string), (need E rk t <= List.length E)%nat ->
     uk_str E P (List.length E) (cu true t) s <> Exn XRecursion.
 Proof. intros E P rk HR t s Hn. exact (uk_str_no_recursion E P rk HR t true s Hn). Qed.
-Print Assumptions C03_str_fuel_sufficient.
+Print Assumptions C03_str_fuel_sufficient_ranked.
 
 (* non-vacuity: NT(a: int, b: Tuple[int, int] = (0, 0), c: int = 7) and
    TD(o: NotRequired[int], r: List[int]) *)
@@ -148,14 +156,18 @@ Example C03_named_nested_error :
   dec (SNamed "NT") (VStr "123") = Exn XIndexError.
 Proof. split; vm_compute; reflexivity. Qed.
 
-(* the example table is ranked by the constant 0 (NT's fields reach no NamedTuple) *)
-Example C03_example_ranked :
-  forall c k, sfind ntE KNamed c = Some k -> forall f, In f k.(sc_fields) -> (need (fun _ => O) f.(sf_ty) <= O)%nat.
-Proof.
-  intros c k H f Hf. cbn [ntE sfind sc_kind ckind_eqb andb sc_name] in H.
-  destruct (String.eqb "NT" c); [|discriminate H]. inversion H; subst k. cbn [sc_fields] in Hf.
-  destruct Hf as [Hf|[Hf|[Hf|[]]]]; subst f; cbn; repeat constructor.
-Qed.
+(* the example tables pass the acyclicity check; a self-referential NamedTuple (which Python cannot even
+   build a codec for) does not, and there the fuel does run out *)
+Definition cycE : senv :=
+  [ {| sc_kind := KNamed; sc_name := "A"; sc_fields := [ {| sf_name := "b"; sf_ty := SList (SNamed "B"); sf_default := None; sf_opt := false |} ] |};
+    {| sc_kind := KNamed; sc_name := "B"; sc_fields := [ {| sf_name := "a"; sf_ty := STupleFix [SNamed "A"]; sf_default := None; sf_opt := false |} ] |} ].
+Example C03_acyclic_examples :
+  acyclic ntE = true /\
+  acyclic [ {| sc_kind := KNamed; sc_name := "O"; sc_fields := [ {| sf_name := "i"; sf_ty := STupleVar (SNamed "NT"); sf_default := None; sf_opt := false |} ] |};
+            {| sc_kind := KNamed; sc_name := "NT"; sc_fields := [ {| sf_name := "a"; sf_ty := SIntT; sf_default := None; sf_opt := false |} ] |} ] = true /\
+  acyclic cycE = false /\
+  uk cycE ntP (VStr "x") (cu true (SNamed "A")) = Exn XRecursion.
+Proof. repeat (match goal with |- _ /\ _ => split end); vm_compute; reflexivity. Qed.
 
 (* nested constant expressions: N3(a0: None), N2(a0: N3) and Tuple[Tuple[None], N3] never read their
    input (at any depth, through the class table); ND(a0: None = None) has a default, so N2D(a0: ND) does read *)
